@@ -52,6 +52,12 @@ def one_case(rng, tier):
         sched = []
         for nm in names:
             sched.append([rng.choice([0, 0, 0.3, 1.0, 1.0, 2.5]), nm])
+        if rng.random() < 0.3:
+            # a path that has been emitted disappears, stays away for at least one poll, and is created again: it is the
+            # same path, so it is not emitted a second time
+            nm = rng.choice(names)
+            sched.append([rng.choice([1.5, 2.5]), nm, 'rm'])
+            sched.append([rng.choice([1.5, 2.5, 3.0]), nm])
         return {'kind': 'filenames', 'schedule': sched, 'glob': rng.random() < 0.5, 'poll': 1.0,
                 # how the directory / pattern is spelled: 'dir', 'dir/' (trailing separator), 'dir/*.dat', 'dir/???.dat'
                 'path_form': rng.choice(['dir', 'dir_slash', 'glob', 'glob_q']),
@@ -216,12 +222,17 @@ def check_case(case, counters, sets):
                             else:
                                 loop.call_soon(src.start)
                     src.sink(on_file)
-                    t = 0.25 + sum(g for g, _ in case['schedule'])
+                    t = 0.25 + sum(s[0] for s in case['schedule'])
                     todo = list(case['schedule'])
 
                     def mk():
-                        gap, nm = todo.pop(0)
-                        open(os.path.join(tmp, nm), 'w').close()
+                        ent = todo.pop(0)
+                        nm = ent[1]
+                        if len(ent) > 2:
+                            os.remove(os.path.join(tmp, nm))
+                            counters['filenames_paths_removed_and_recreated'] = counters.get('filenames_paths_removed_and_recreated', 0) + 1
+                        else:
+                            open(os.path.join(tmp, nm), 'w').close()
                         if todo:
                             loop.call_later(todo[0][0], mk)
                     if todo:
@@ -232,7 +243,7 @@ def check_case(case, counters, sets):
                     loop.drive(until_vt=t + 6 * case['poll'] + 1, max_iters=50000)
                     counters['filenames_runs'] = counters.get('filenames_runs', 0) + 1
                     names = [n for _, n in got]
-                    expected = sorted(['p%02d.dat' % i for i in range(case['preexisting'])] + [nm for _, nm in case['schedule']])
+                    expected = sorted(set(['p%02d.dat' % i for i in range(case['preexisting'])] + [s[1] for s in case['schedule']]))
                     if sorted(names) != expected:
                         if len(names) > len(set(names)):
                             add('C17:path-emitted-twice@filenames', 'created %s, emitted %s' % (expected, names))
